@@ -189,6 +189,8 @@ func c14Plans() []cmdPlan {
 		n = append(n, neighbour{"option", "-q value vs base -q", b2})
 		plans = append(plans, cmdPlan{"define", b, n, []string{"format", "qualifier"}})
 		plans = append(plans, cmdPlan{"define", b2, []neighbour{{"option", "-q note=a -> note=b", with(b, "-q", "note=b")}, {"option", "second -q", with(b2, "-q", "gene=x")}}, []string{"format", "qualifier"}})
+		b4 := with(b2, "-q", "gene=x")
+		plans = append(plans, cmdPlan{"define", b4, []neighbour{{"option", "same -q pairs, other order", with(with(b, "-q", "gene=x"), "-q", "note=a")}}, nil})
 	}
 	{
 		b := mk("delete", "CDS")
@@ -201,6 +203,8 @@ func c14Plans() []cmdPlan {
 		n := fmtN(b)
 		n = append(n, neighbour{"option", "-v", with(b, "-v")}, neighbour{"positional", "locator", mk("extract", "gene")}, neighbour{"positional", "second locator", mk("extract", "CDS", "1..30")},
 			neighbour{"positional", "no locator", mk("extract")})
+		b2 := mk("extract", "21..30", "1..10")
+		plans = append(plans, cmdPlan{"extract", b2, []neighbour{{"positional", "same locators, other order", mk("extract", "1..10", "21..30")}, {"positional", "duplicate locator", mk("extract", "21..30", "1..10", "21..30")}}, nil})
 		plans = append(plans, cmdPlan{"extract", b, n, []string{"format", "invert-region"}})
 	}
 	{
@@ -238,6 +242,8 @@ func c14Plans() []cmdPlan {
 		}
 		plans = append(plans, cmdPlan{"query", b, n, []string{"name", "delimiter", "separator", "no-header", "source", "no-seqid", "no-key", "no-location", "empty"}})
 		b2 := with(b, "-n", "gene")
+		b3 := with(b2, "-n", "product")
+		plans = append(plans, cmdPlan{"query", b3, []neighbour{{"option", "same -n names, other order", with(with(b, "-n", "product"), "-n", "gene")}}, nil})
 		plans = append(plans, cmdPlan{"query", b2, []neighbour{{"option", "-n gene -> product", with(b, "-n", "product")}, {"option", "second -n", with(b2, "-n", "product")},
 			{"option", "--empty with -n", with(b2, "--empty")}, {"option", "-t with -n", with(b2, "-t", ";")}}, nil})
 	}
@@ -262,7 +268,7 @@ func c14Plans() []cmdPlan {
 		b := mk("select", "CDS")
 		n := fmtN(b)
 		n = append(n, neighbour{"positional", "selector", mk("select", "gene")}, neighbour{"positional", "second selector", mk("select", "CDS", "gene")},
-			neighbour{"option", "-s forward", with(b, "-s", "forward")}, neighbour{"option", "-s reverse", with(b, "-s", "reverse")}, neighbour{"option", "-v", with(b, "-v")})
+			neighbour{"positional", "same selectors, other order", mk("select", "gene", "CDS")}, neighbour{"option", "-s forward", with(b, "-s", "forward")}, neighbour{"option", "-s reverse", with(b, "-s", "reverse")}, neighbour{"option", "-v", with(b, "-v")})
 		plans = append(plans, cmdPlan{"select", b, n, []string{"format", "strand", "invert-match"}})
 	}
 	{
@@ -450,6 +456,14 @@ func (m c14) Run(c *fw.Ctx) {
 		if c.NextShared() {
 			x.history(p.name, "-o", "", "a ; a -o f ; a", []inv{a, a.withOut("out.txt"), a}, false)
 		}
+		// the output format implied by the -o extension is part of what the
+		// command writes, hence of the key.
+		if c.NextShared() {
+			x.history(p.name, "-o", "format", "a ; a -o f.fasta ; a -o f.gb ; a", []inv{a, a.withOut("out.fasta"), a.withOut("out.gb"), a}, true)
+		}
+		if c.NextShared() {
+			x.history(p.name, "-o", "format", "a -o f.fasta ; a ; a -o f.fasta", []inv{a.withOut("out.fasta"), a, a.withOut("out.fasta")}, true)
+		}
 		for _, n := range p.neigh {
 			differ := func() bool {
 				ra, rb := x.reference(a), x.reference(n.v)
@@ -478,8 +492,8 @@ func (m c14) Run(c *fw.Ctx) {
 			var hs []inv
 			for i := 0; i < ln; i++ {
 				v := pool[hr.Intn(len(pool))]
-				if hr.Intn(6) == 0 {
-					v = v.withOut("o.out")
+				if hr.Intn(5) == 0 {
+					v = v.withOut([]string{"o.out", "o.fasta", "o.gb", "o.genbank"}[hr.Intn(4)])
 				}
 				if hr.Intn(8) == 0 {
 					v.stdin = []string{"bad-trunc.gb", "bad-field.gb", "empty"}[hr.Intn(3)]
